@@ -101,6 +101,7 @@ func runFieldmap(in Sx) Sx {
 					jl := j.(List)
 					secOf(to, AtomSym(jl[0])).SetBytes(quickfix.Tag(AtomInt(jl[1])), AtomBytes(jl[2]))
 				}
+				_ = to.String() // the destination is a used Message: it has been serialised with its own fields before
 				m.CopyInto(to)
 				m = to
 			case "build":
@@ -120,6 +121,10 @@ func runFieldmap(in Sx) Sx {
 			parsed = OkV(L(entriesSx(&p.Header.FieldMap), entriesSx(&p.Body.FieldMap), entriesSx(&p.Trailer.FieldMap)))
 		}
 		c := quickfix.NewMessage()
+		c.Header.SetString(50, "used")
+		c.Body.SetString(58, "used")
+		c.Body.SetString(1, "used")
+		_ = c.String() // again a used destination
 		m.CopyInto(c)
 		cbs := []byte(c.String())
 		return L(Sym("obs"), Bytes(bs), before[0], before[1], before[2], after[0], after[1], after[2], parsed, Bytes(cbs))
